@@ -16,12 +16,13 @@ CFG = dict(
     classify=classify,
     imports=["From Verif.Common Require Import Packet PolicyRef Labels.", "From Verif.C05 Require Import Model Spec ModelSync SpecSync."],
     checker="check_scase",
-    n=dict(quick=120, thorough=3000),
+    n=dict(quick=90, thorough=3000),
     shard=15,
     rule="histories of 10-37 datastore updates, delivered to the real ValidationFilter.OnUpdates in BATCHES (a start-of-day "
          "snapshot of 3-6 updates, then single updates and coalesced bursts of 2-6; a third of the batches are invalid-heavy: "
          "0/1/2/3+ invalid values per batch at any positions; forwarded batch checked position by position, the caller's slice "
-         "checked for mutation), over 4 profiles, 4 policies, 3 tiers, 3 workload + 2 host endpoints, fed through "
+         "checked for mutation) interleaved with sync-status messages (optional WaitForDatastore / ResyncInProgress, InSync at a "
+         "random batch boundary or at the very end, repeated InSync; the end-of-resync warning is captured through a logrus hook), over 4 profiles, 4 policies, 3 tiers, 3 workload + 2 host endpoints, fed through "
          "the real ValidationFilter into the real ActiveRulesCalculator (3 of 4 cases: callbacks compared message for message) or "
          "into the whole real calculation graph + EventSequencer (every 4th case: proto.ActiveProfileUpdate/Remove compared as "
          "the dataplane's profile view after every update); every 5th case chains Typha's own ValidationFilter in front of "
@@ -57,7 +58,8 @@ MANIFEST = dict(
          "every Go map iteration order (a referenced missing/invalid profile is emitted as the single-deny stand-in and denies every "
          "packet reaching it; a late profile's own rules replace it; an invalid write is message-for-message a delete; never more "
          "open than absence; the dataplane holds exactly the current valid version of every selecting policy; no panic branch is "
-         "reachable), plus a correspondence run of model and spec oracle against the real filter and calculator (callback level) "
+         "reachable; status messages change nothing and the stand-in is there before, across and after the first InSync; the "
+         "end-of-resync warning names exactly the dangling references), plus a correspondence run of model and spec oracle against the real filter and calculator (callback level) "
          "and against the whole real calculation graph + EventSequencer (proto.ActiveProfileUpdate level).",
     note="Trusted: Coq kernel; hand-written model tied to the code only by the correspondence run; Go driver.",
 )
